@@ -402,6 +402,7 @@ class StmtMixin:
             if isinstance(iterable.ty, (TSeq, TList)) or iterable.ty == TStr:
                 ghosts["seq"] = iterable
                 ghosts["idx"] = lift(0)
+                ghosts["pview"] = View(iterable.length(), lambda i, s_=iterable: s_[i], "plain")
             elif isinstance(iterable.ty, TSet):
                 ghosts["seq"] = iterable
                 ghosts["visited"] = iterable.ty.empty()
@@ -417,7 +418,8 @@ class StmtMixin:
             c.loc = type(c.loc)(self.visible_locals())
             c.idx = ghosts.get("idx")
             c.seq = ghosts.get("seq")
-            c.view = ghosts.get("view")
+            c.view = ghosts.get("view") or ghosts.get("pview")
+            c.outer = list(self.loop_ghosts)  # ghosts of the enclosing loops, innermost last
             c.visited = ghosts.get("visited")
             try:
                 r = inv(c)
@@ -485,6 +487,7 @@ class StmtMixin:
             nxt = ghosts
         lkey = (self.frame_fn().qualname, ordinal)
         self.loop_stack.append(lkey)
+        self.loop_ghosts.append(ghosts)
         try:
             self.exec_block(s.body)
         except ContinueEx:
@@ -493,6 +496,7 @@ class StmtMixin:
             return
         finally:
             self.loop_stack.pop()
+            self.loop_ghosts.pop()
         ghosts.update(nxt)
         self.oblige(f"inv{ordinal}.pres", inv_formula(), s)
         raise PathEnd()
